@@ -572,8 +572,8 @@ class Spectrum(object):
             the psd on the fly, change the attribute :attr:`sides`.
 
         """
-        if self.__psd is not None and self.modified is True:
-            # a stale PSD must be recomputed before it is converted
+        if self.__psd is None or self.modified is True:
+            # a missing or stale PSD must be (re)computed before it is converted
             _ = self.psd
         if sides == self.sides:
             #nothing to be done is sides = :attr:`sides
